@@ -97,8 +97,27 @@ func dirOf(rel string) string {
 	return ""
 }
 
+// at returns the layout with the placeholder "@BASE@" in remote paths replaced by the scratch
+// directory: a remote root may be a directory of this machine (the dump was taken here, or on
+// a machine whose GOPATH is spelled like one of ours).
+func (l *Layout) at(base string) *Layout {
+	sub := func(s string) string { return strings.ReplaceAll(s, "@BASE@", base) }
+	c := *l
+	c.GorootRemote = sub(l.GorootRemote)
+	c.Gopaths = append([]LGopath(nil), l.Gopaths...)
+	for i := range c.Gopaths {
+		c.Gopaths[i].Remote = sub(c.Gopaths[i].Remote)
+	}
+	c.Extra = nil
+	for _, e := range l.Extra {
+		c.Extra = append(c.Extra, sub(e))
+	}
+	return &c
+}
+
 // truths lists every file of the layout with its expected resolution.
 func (l *Layout) truths(base string) []fileTruth {
+	l = l.at(base)
 	var out []fileTruth
 	for _, f := range l.Goroot {
 		out = append(out, fileTruth{Remote: l.GorootRemote + "/src/" + f.Rel, Local: l.localGoroot(base) + "/src/" + f.Rel, Rel: f.Rel, Import: dirOf(f.Rel), Loc: stack.Stdlib, Present: f.Present, Known: true, ImportFromFunc: dirOf(f.Rel) == ""})
@@ -171,6 +190,7 @@ func isFileLocal(p string) bool {
 // ambiguous: some referenced remote path has a candidate local file other than its own (a
 // tail of the path also exists below another local root, or at another depth).
 func (l *Layout) ambiguous(base string, refs []fileTruth) bool {
+	l = l.at(base)
 	var roots []string
 	if l.GorootRemote != "" {
 		roots = append(roots, l.localGoroot(base)+"/src")
@@ -303,11 +323,27 @@ func genLayout(t *rapid.T, nested bool) Layout {
 		}
 		l.Gopaths = append(l.Gopaths, g)
 	}
+	sameMachine := false
+	if ngp >= 2 && oneIn(t, 6, "remoteLikeEarlierLocal") {
+		// the dump comes from a machine whose GOPATH is spelled like one of ours; the files are
+		// in another of our GOPATHs
+		j := rapid.IntRange(1, ngp-1).Draw(t, "likeLocalWhich")
+		l.Gopaths[j].Remote = fmt.Sprintf("@BASE@/gp%d", rapid.IntRange(0, j-1).Draw(t, "likeLocalOf"))
+	} else if ngp >= 1 && oneIn(t, 6, "sameMachineGopath") {
+		// the dump was taken on this machine
+		l.Gopaths[0].Remote = "@BASE@/gp0"
+		sameMachine = true
+	}
 	nm := rapid.IntRange(0, 3).Draw(t, "nmodules")
 	for i := 0; i < nm; i++ {
 		m := LModule{Dir: fmt.Sprintf("m%d", i), ModPath: rapid.SampledFrom(fsHosts).Draw(t, "modpath")}
 		for j, k := 0, rapid.IntRange(0, 3).Draw(t, "moddepth"); j < k; j++ {
 			m.Dir += "/" + rapid.SampledFrom(fsElems).Draw(t, "moddir")
+		}
+		if i == 0 && sameMachine && oneIn(t, 2, "moduleInsideGopathDir") {
+			// GOPATH=$HOME with a project in ~/work/app: inside the GOPATH directory, outside
+			// its src and pkg/mod
+			m.Dir = "gp0/" + rapid.SampledFrom([]string{"work/app", "w", "srcs/app", "tmp/x/y"}).Draw(t, "insideGopath")
 		}
 		if i > 0 && oneIn(t, 3, "siblingPrefix") {
 			// a sibling directory whose name merely starts with another root's name
